@@ -285,6 +285,11 @@ func (u *Universe) BuildAlphabet(winFrom, winUntil int64) {
 	partial := map[string]interface{}{"__list__": []interface{}{patchAddServices(svcEntry("p1", "web", "https://example.com/p1")), patchAddKeys(pubKeyEntry("pk", u.X[1], "authentication")), failingPatch}}
 	add(u.MkSigned("uPF", "update", u.U[0], "", cm(u.U[1]), nil, SignedOpts{DeltaStatus: ref.DeltaFails, FailPatch: partial}))
 	add(u.MkSigned("u12PF", "update", u.U[1], "", cm(u.U[2]), nil, SignedOpts{DeltaStatus: ref.DeltaFails, FailPatch: partial}))
+	// a replace patch on a document that holds more than keys and services: the document is reset to exactly what it names
+	aka := []interface{}{map[string]interface{}{"action": "add-also-known-as", "uris": []interface{}{"https://alias.example/a"}}, patchJSON(map[string]interface{}{"op": "add", "path": "/note", "value": "n"})}
+	add(u.MkSigned("uAka", "update", u.U[0], "", cm(u.U[1]), aka, SignedOpts{}))
+	add(u.MkSigned("u12Rep", "update", u.U[1], "", cm(u.U[2]), d1, SignedOpts{}))
+	add(u.MkSigned("uAkaRep", "update", u.U[0], "", cm(u.U[1]), append(append([]interface{}{}, aka...), d1[0]), SignedOpts{}))
 	// genuine signatures by the key of the other commitment kind (update key on a recover/deactivate, recovery key on an update)
 	add(u.MkSigned("rU", "recover", u.U[0], cm(u.R[1]), cm(u.U[1]), d1, SignedOpts{}))
 	add(u.MkSigned("dU", "deactivate", u.U[0], "", "", nil, SignedOpts{}))
